@@ -72,7 +72,7 @@ func (s *JsonObjectBuilder) writeKey(key string) {
 		s.sb.WriteString(", ")
 	}
 	s.sb.WriteRune('"')
-	s.sb.WriteString(key)
+	s.sb.WriteString(escape(key))
 	s.sb.WriteString("\": ")
 	s.keyCount++
 }
@@ -80,19 +80,29 @@ func (s *JsonObjectBuilder) writeKey(key string) {
 var escapeLookup = [93]string{'\b': "\\b", '\f': "\\f", '\n': "\\n", '\r': "\\r", '\t': "\\t", '"': `\"`, '\\': `\\`}
 
 func escape(s string) string {
+	const hex = "0123456789abcdef"
 	var sb strings.Builder
 	hasMapped := false
 
-	for i, r := range s {
-		if int(r) < len(escapeLookup) && escapeLookup[r] != "" {
+	// bytewise: every byte that needs escaping is ASCII; all other bytes are copied as they are
+	for i := 0; i < len(s); i++ {
+		c := s[i]
+		mapped := int(c) < len(escapeLookup) && escapeLookup[c] != ""
+		if mapped || c < 0x20 {
 			if !hasMapped {
 				sb.Grow(len(s) + 5)
 				sb.WriteString(s[:i])
 				hasMapped = true
 			}
-			sb.WriteString(escapeLookup[r])
+			if mapped {
+				sb.WriteString(escapeLookup[c])
+			} else {
+				sb.WriteString(`\u00`)
+				sb.WriteByte(hex[c>>4])
+				sb.WriteByte(hex[c&0xf])
+			}
 		} else if hasMapped {
-			sb.WriteRune(r)
+			sb.WriteByte(c)
 		}
 	}
 
@@ -103,6 +113,9 @@ func escape(s string) string {
 }
 
 func isNumeric(s string) bool {
+	if len(s) > 1 && s[0] == '0' && s[1] != '.' {
+		return false // JSON numbers have no leading zeros
+	}
 	i := 0
 	for ; i < len(s); i++ {
 		r := s[i]
